@@ -65,15 +65,42 @@ def run_case(case, R):
         R.cls("adv:" + k)
 
     async def main(loop):
-        cache = CharacteristicCacheMemory()
+        class Cache(CharacteristicCacheMemory):
+            fail_writes = False         # armed while a notification is being handled: the storage behind the cache is gone
+
+            def async_create_or_update_map(self, *a, **kw):
+                if Cache.fail_writes:
+                    raise OSError(28, "simulated: no space left on device")
+                return super().async_create_or_update_map(*a, **kw)
+        cache = Cache()
         cn = case.get("cn", 1)
         cache.async_create_or_update_map("aa:bb:cc:dd:ee:ff" if case.get("cache_lower", True) else "AA:BB:CC:DD:EE:FF", cn, DB, KEY.hex(), g0 or None)
         cache.async_create_or_update_map("AA:BB:CC:DD:EE:FF", cn, DB, KEY.hex(), g0 or None)
+        if case.get("cache_state") in ("none", "zero"):
+            # a cache written before state numbers were stored (None), or with the number 0: the pairing has a key but no description of its own
+            for key_ in ("aa:bb:cc:dd:ee:ff", "AA:BB:CC:DD:EE:FF"):
+                cache.async_create_or_update_map(key_, cn, DB, KEY.hex(), None if case["cache_state"] == "none" else 0)
         ctl = BleController(char_cache=cache)
         pairing = ctl.load_pairing("alias", dict(PD))
         calls = []
         pairing.dispatcher_connect(lambda ev: calls.append(dict(ev)))
+        avail = []
+        pairing.dispatcher_availability_changed(lambda a: avail.append(a))
         dev = BLEDevice(ADDRESS, "Sim", None)
+        import aiohomekit.controller.ble.pairing as ble_pairing_mod
+        from aiohomekit.exceptions import AccessoryDisconnectedError
+
+        async def no_link(*a, **kw):
+            raise AccessoryDisconnectedError("simulated: accessory not in range")
+        orig_est = ble_pairing_mod.establish_connection
+        if case.get("unreachable"):
+            # the application has tried to talk to the accessory before (so the catch-up poll for undecryptable notifications is live) and it is out of range
+            R.cls("catch-up-poll-fails")
+            ble_pairing_mod.establish_connection = no_link
+            try:
+                await asyncio.wait_for(pairing.get_characteristics([(1, 11)]), 600)
+            except Exception:  # noqa: BLE001
+                pass
 
         def feed(mfr):
             adv = AdvertisementData(local_name="Sim", manufacturer_data={76: mfr}, service_data={}, service_uuids=[], tx_power=None, rssi=-60, platform_data=())
@@ -84,8 +111,11 @@ def run_case(case, R):
             return None
         # usually the scanner sees a regular advertisement first; after a restart ("cold") the first thing seen may be a notification, and the
         # last accepted state number is the one restored from the cache
-        cold = bool(case.get("cold")) and g0 > 0
-        if cold:
+        cold = bool(case.get("cold")) and (g0 > 0 or case.get("cache_state") in ("none", "zero"))
+        no_description = cold and case.get("cache_state") in ("none", "zero")
+        if no_description:
+            R.cls("cold-start:no-state-number")
+        elif cold:
             R.cls("cold-start")
             if pairing.description is None or pairing.description.state_num != g0:
                 R.fail("C18.state-not-restored", f"pairing loaded from a cache with state number {g0} (config number {cn}) starts from "
@@ -162,8 +192,14 @@ def run_case(case, R):
             for m in (variants if variants is not None else [msg]):
                 before_calls = len(calls)
                 before_state = pairing.description.state_num if pairing.description else None
+                before_avail = (len(avail), pairing.is_available)
+                Cache.fail_writes = bool(case.get("cache_fails")) and kind != "regular"
                 err = feed(m)
                 await vtime.settle(loop)
+                if case.get("unreachable"):
+                    await asyncio.sleep(120)          # let a catch-up poll run out of retries
+                    await vtime.settle(loop)
+                Cache.fail_writes = False
                 what = f"event {idx} {ev} (last accepted {last}, g0 {g0})"
                 if err is not None:
                     R.fail("C18.callback-raises", f"{what}: {type(err).__name__}: {err}", exc=type(err).__name__, kind=kind)
@@ -191,7 +227,13 @@ def run_case(case, R):
                         R.fail("C18.forged-or-stale-accepted", f"{what}: listeners {new_calls}, state_num {before_state} -> {after_state}",
                                kind=kind)
                         return
+                    if (len(avail), pairing.is_available) != before_avail:
+                        R.fail("C18.forged-or-stale-accepted", f"{what}: an advertisement that was not accepted changed the pairing's availability "
+                                                               f"({before_avail} -> {(len(avail), pairing.is_available)})", kind="availability")
+                        return
                     continue
+                if no_description and pairing.description is None and not new_calls:
+                    continue          # without a state number of its own the pairing may wait for a regular advertisement first
                 # authentic and fresh by the reference: acceptance is required inside the window
                 exp_iid = struct.unpack("<H", accept_pt[2:4])[0]
                 fmt, code, size = FORMATS[exp_iid]
@@ -212,7 +254,14 @@ def run_case(case, R):
                     return
                 last = accept_g
                 sent.append((accept_g, m))
-    vtime.run(main)
+        ble_pairing_mod.establish_connection = orig_est
+    try:
+        vtime.run(main)
+    finally:
+        import aiohomekit.controller.ble.pairing as _bpm
+        if getattr(_bpm.establish_connection, "__name__", "") == "no_link":
+            from aiohomekit.controller.ble.connection import establish_connection as _real
+            _bpm.establish_connection = _real
 
 
 def run_removed(case, R):
@@ -294,10 +343,25 @@ def histories(draw):
     events = [[draw(st.sampled_from(KINDS)), draw(st.integers(0, 6)), draw(st.integers(0, 10**6)), draw(st.integers(0, 10**6))] for _ in range(n)]
     if draw(st.integers(0, 9)) == 0:
         events.insert(draw(st.integers(0, len(events))), ["flip-all", draw(st.integers(0, 6)), 3, 0])
-    return {"g0": g0, "events": events, "cold": draw(st.integers(0, 3)) == 0, "cn": draw(st.sampled_from([1, 1, 3, 40, 255]))}
+    case = {"g0": g0, "events": events, "cold": draw(st.integers(0, 3)) == 0, "cn": draw(st.sampled_from([1, 1, 3, 40, 255]))}
+    extra = draw(st.integers(0, 9))
+    if extra == 0:
+        case["unreachable"] = True
+    elif extra == 1:
+        case["cache_fails"] = True
+    elif extra == 2:
+        case.update(g0=0, cold=True, cache_state=draw(st.sampled_from(["none", "zero"])))
+    return case
 
 
 def enum_fixed(tier):
+    hist = [["next", 1, 1, 0], ["wrong-key", 1, 0, 0], ["replay-current", 1, 0, 0], ["older", 1, 1, 0], ["next", 2, 3, 0], ["flip", 1, 0, 9], ["replay-current", 2, 0, 0],
+            ["skip", 3, 4, 5], ["other-device", 1, 0, 0], ["replay-current", 3, 0, 0]]
+    yield {"g0": 10, "events": hist, "unreachable": True}
+    yield {"g0": 65000, "events": hist[:6], "unreachable": True, "cn": 3}
+    yield {"g0": 10, "events": hist, "cache_fails": True}
+    for shape in ("none", "zero"):
+        yield {"g0": 0, "cold": True, "cache_state": shape, "events": [["next", 1, 1, 0], ["wrong-key", 1, 0, 0], ["truncated", 1, 0, 3], ["regular", 0, 0, 2], ["next", 1, 2, 0], ["replay-current", 1, 0, 0]]}
     for g0, cn in ((100, 1), (900, 3), (40, 255), (65434, 7)):
         yield {"g0": g0, "cn": cn, "cold": True, "events": [["older", 1, 1, 0], ["older", 2, 1, 30], ["older", 1, 2, 49], ["next", 1, 1, 0], ["older", 1, 1, 60], ["replay-current", 1, 0, 0],
                                                               ["skip", 3, 1, 5], ["regular", 0, 0, 2], ["next", 2, 2, 0]]}
